@@ -23,9 +23,9 @@ CHECKS = {
     "C12": ("model_checking", "3.3, 6/C12", "TLC invariant SingleDelivery on Mock.tla; clone/drop counters of every configured value compared after teardown",
             "Three engines: (1) sequential histories of 0..N requests for single-use and repeat-use values on the original and over clones with clone/drop conservation; (2) owned leaves inside Option/Result/Vec/Poll/tuple composites (Shapes.tla cases as generated programs); (3) 2-4 threads racing for the value under every schedule and free-running, SingleDelivery by trace validation. (Compile-time refusal of multi-use quantifiers on non-Clone values: see C14's compile-fail chains.)"),
     "C15": ("model_checking", "3.3, 6/C15", "Mock.tla default-body frames (scripts of nested required-method calls) enumerated by TLC and replayed through the real default bodies",
-            "Default bodies run through the real delegation helper; nested required calls must hit the same counters, ordered slots and responses as the model's shared state predicts, mixed with direct calls; &self receivers in this engine."),
+            "Two engines: (1) default bodies with scripts of nested required calls on the universe, mixed with direct calls so that counts and ordered slots interleave (Mock.tla frames, replay); (2) every receiver kind (&self, &mut self, by value, Rc, Arc, Pin) x 0-3 required calls x implicit / applies_default_impl() x ordered / counted patterns x sole / shared owner as generated traits (Shapes.tla DelegateExpected). Led to the fix of the solely-owned Rc/Arc defect."),
     "C16": ("model_checking", "3.3, 6/C16", "Mock.tla real-function frames (re-entrant scripts) enumerated by TLC and replayed through the functions registered with unmock_with",
-            "applies_unmocked() and partial fall-through resolve to exactly one invocation of the registered function with the caller's argument, nested calls evaluated by the same mock (recursion depth <= 2), CannotUnmock where none is registered."),
+            "Two engines: (1) re-entrant real functions on the universe, recursion depth <= 2, strict and partial (Mock.tla frames, replay); (2) unmock_with in its three forms, every per-method position incl. a non-mockable item in front, &self/&mut self/Pin/by-value receivers, sync/async, fall-through vs applies_unmocked(), nested calls back into the mock (Shapes.tla UnmockExpected, generated traits). Led to the fix of the missing unmock arm for mutable receivers."),
     "C09": ("model_checking", "3.4, 6/C09", "Lifecycle.tla (teardown statement by statement; invariants ClonesNeverVerify, VerifyPanicsIff, ReportAgrees, VerifiedAtMostOnce) checked by TLC; every event sequence replayed on real instances over two threads",
             "All lifecycle event sequences up to the bound over original, clones, helper clones and lent instances on two OS threads; each operation's panic/silence/exit code compared with the model."),
     "C11": ("model_checking", "3.4, 6/C11", "Lifecycle.tla invariant NoDoublePanic (with sensitivity runs for a misplaced guard) by TLC; every crash-point sequence executed for real, a process abort is the violation",
@@ -46,6 +46,8 @@ CHECKS = {
             "Model-derived exhaustive case generation: method shapes x ten error scenarios with pairwise-distinct argument values (call rendering, '?' for non-Debug, pattern source text and file:line), and for every guard-free single-alternative pattern of the Matching grammar x every rejected tuple the exact set of reported argument positions."),
     "C05": ("exploration", "3.7, 6/C05", "Shapes.tla Forward (valid shapes and expected matcher view / answer view / write-back / return) enumerated by TLC; one generated #[unimock] trait per shape with recording matcher guard and answer, sync and async scenarios",
             "Model-derived case generation over receiver x parameter list x return kind x async form x api form x method generics with pairwise-distinct values; quick = seeded pairwise-covering subset, thorough = up to 2500 shapes; async shapes check evaluation at first poll only and not at all when dropped unpolled."),
+    "C20": ("exploration", "3.7, 6/C20", "Shapes.tla Mirrors (required/provided table, BasisIsRequired) by TLC; wiring case per required method and seeded differential runs of a Unimock vs a plain struct through every upstream provided method",
+            "Every method of the mirrored core/std traits and embedded-hal DelayNs must be exercised (the driver refuses to pass otherwise): required methods answered by their own entry point, provided methods run through the upstream default body over scripted required methods in strict and partial mocks, with results, buffers and the sequence of required-method calls equal to a plain struct's."),
 }
 
 NOT_YET = {
@@ -84,7 +86,7 @@ def main():
         },
         "engines": [
             {"name": "tla-genprog", "path": "tla/Shapes.tla, tla/MC_Shapes.tla, lib/gen.py, lib/gen_*.py, gen/prelude.rs",
-             "serves_properties": ["C17", "C12"],
+             "serves_properties": ["C05", "C06", "C14", "C15", "C16", "C17", "C19", "C20", "C12"],
              "kind_free_text": "TLC enumerates cases of a shape grammar with their expected observation; Python renders them to Rust programs built against /repo; observations are compared with the model's expectation"},
             {"name": "tla-conc-trace", "path": "tla/Conc.tla, tla/MC_Conc.tla, tla/ConcTrace.tla, harness/src/conc.rs, lib/engines.py",
              "serves_properties": ["C10"],
